@@ -537,14 +537,26 @@ func (c *evalCtx) evalCall(e *Expr) EV {
 			}
 		}
 		if a.T == nil && a.V.K == VScalar && a.V.T.S == SInt {
-			// untyped (quantified) key: a [32]byte ledger key
-			t := types.NewArray(types.Typ[types.Uint8], 32)
+			// untyped (quantified) value: a [32]byte ledger key unless a length is given (bytesof(x, 20))
+			n := int64(32)
+			if len(e.Args) == 2 && e.Args[1].Kind == "int" {
+				n = e.Args[1].Int.Int64()
+			}
+			t := types.NewArray(types.Typ[types.Uint8], n)
 			return EV{V: scalar(vc.arrayBytes(a.V.T, t, t))}
 		}
 		return c.fail("bytesof() needs an array value in %s", e)
-	case "key32":
-		// the [32]byte value whose bytes are the given content (inverse of bytesof)
-		return EV{V: scalar(p.App("arrofbytes$[32]uint8", SInt, c.contentOf(arg(0), e)))}
+	case "addr20", "key32":
+		// the [N]byte value whose bytes are the given content (inverse of bytesof on N-byte strings)
+		n := int64(20)
+		if name == "key32" {
+			n = 32
+		}
+		cont := c.contentOf(arg(0), e)
+		at := types.NewArray(types.Typ[types.Uint8], n)
+		v := p.App(fmt.Sprintf("arrofbytes$[%d]uint8", n), SInt, cont)
+		vc.assumeGlobal(p.Implies(p.Eq(p.App("strlen", SInt, cont), p.Int(n)), p.Eq(vc.arrayBytes(v, at, at), cont)))
+		return EV{V: scalar(v)}
 	case "has":
 		m, k := arg(0), arg(1)
 		if m.T != nil {
